@@ -723,13 +723,14 @@ impl<H: NodeHasher> PageWalker<H> {
         let stack_top = self.stack.last_mut().unwrap();
         stack_top.page.set_node(node_index, node);
 
+        // Always record the slot: if another slot of this page is written later in the same pass,
+        // the clear bit is erased again and the diff must still name the slot zeroed here.
+        stack_top.diff.set_changed(node_index);
         if self.position.is_first_layer_in_page()
             && node == TERMINATOR
             && sibling_node == TERMINATOR
         {
             stack_top.diff.set_cleared();
-        } else {
-            stack_top.diff.set_changed(node_index);
         }
     }
 
